@@ -33,6 +33,10 @@ def fpi (s : Stack) : List (Tid × TaskSt) × List (Nat × Nat) × Nat × Option
 @[simp] theorem fpi_with_armLog (s : Stack) (x : List (Cb × Nat × Nat)) : fpi { s with armLog := x } = fpi s := rfl
 @[simp] theorem fpi_with_findMarks (s : Stack) (x : List (Nat × Nat)) : fpi { s with findMarks := x } = fpi s := rfl
 @[simp] theorem fpi_with_ansLog (s : Stack) (x : List (Nat × Addr × Nat × Nat)) : fpi { s with ansLog := x } = fpi s := rfl
+@[simp] theorem fpi_with_lisLog (s : Stack) (x : List (LId × Bool × SvcKey × Addr)) : fpi { s with lisLog := x } = fpi s := rfl
+@[simp] theorem fpi_logLis (s : Stack) (id : LId) (o : Bool) (k : SvcKey) (a : Addr) : fpi (s.logLis id o k a) = fpi s := rfl
+@[simp] theorem fpi_with_lisDup (s : Stack) (x : Bool) : fpi { s with lisDup := x } = fpi s := rfl
+@[simp] theorem fpi_markDup (s : Stack) (d : Bool) : fpi (s.markDup d) = fpi s := rfl
 @[simp] theorem fpi_logAnswer (s : Stack) (i : Nat) (a : Addr) (d : Nat) : fpi (s.logAnswer i a d) = fpi s := rfl
 @[simp] theorem fpi_markFind (s : Stack) (n : Nat) : fpi (s.markFind n) = fpi s := rfl
 @[simp] theorem fpi_with_offLog (s : Stack) (x : List (Nat × OEv × Nat)) : fpi { s with offLog := x } = fpi s := rfl
@@ -267,13 +271,13 @@ theorem fpi_stepSubscribe (s : Stack) (tid : Tid) (t : TaskSt) (h : tid.1 ≠ .f
   rw [foldl_pres fpi _ (fun s p => by frame_cases)]
 
 @[simp] theorem fpi_watchService (s : Stack) (f : Service) (l : Listener) : fpi (s.watchService f l) = fpi s := by
-  unfold watchService; simp only []; rw [fpi_replay]; rfl
+  unfold watchService; simp only []; rw [fpi_markDup, fpi_replay]; rfl
 @[simp] theorem fpi_stopWatchService (s : Stack) (f : Service) (l : Listener) : fpi (s.stopWatchService f l) = fpi s := by
   unfold stopWatchService; simp only []; split
   · simp
   · rw [fpi_replay]; rfl
 @[simp] theorem fpi_watchAllServices (s : Stack) (id : LId) : fpi (s.watchAllServices id) = fpi s := by
-  unfold watchAllServices; rw [fpi_replay]; rfl
+  unfold watchAllServices; rw [fpi_markDup, fpi_replay]; rfl
 @[simp] theorem fpi_stopWatchAllServices (s : Stack) (id : LId) : fpi (s.stopWatchAllServices id) = fpi s := by
   unfold stopWatchAllServices; split
   · simp
